@@ -161,15 +161,40 @@ func (s ClientRecoveryStore) GetStore(prefix []byte) (storetypes.KVStore, bool) 
 	return nil, false
 }
 
-// closedIterator returns an iterator that is always closed, used when Iterator() or ReverseIterator() is called
-// with an invalid prefix or start/end key.
-func (s ClientRecoveryStore) closedIterator() storetypes.Iterator {
-	// Create a dummy iterator that is always closed right away.
-	it := s.subjectStore.Iterator([]byte{0}, []byte{1})
-	it.Close()
-
-	return it
+// closedIterator returns an iterator that is always invalid and yields no entries, used when Iterator() or
+// ReverseIterator() is called with an invalid prefix or start/end key.
+//
+// Note: an iterator obtained from one of the underlying stores must not be used here, closing an iterator does not
+// invalidate it for all store implementations, and so it could yield entries of the underlying store.
+func (ClientRecoveryStore) closedIterator() storetypes.Iterator {
+	return emptyIterator{}
 }
+
+// emptyIterator implements the storetypes.Iterator interface for an empty domain. It is never valid.
+type emptyIterator struct{}
+
+var _ storetypes.Iterator = emptyIterator{}
+
+// Domain implements the storetypes.Iterator interface.
+func (emptyIterator) Domain() ([]byte, []byte) { return nil, nil }
+
+// Valid implements the storetypes.Iterator interface. It always returns false.
+func (emptyIterator) Valid() bool { return false }
+
+// Next implements the storetypes.Iterator interface. It panics as the iterator is never valid.
+func (emptyIterator) Next() { panic(errors.New("iterator is invalid")) }
+
+// Key implements the storetypes.Iterator interface. It panics as the iterator is never valid.
+func (emptyIterator) Key() []byte { panic(errors.New("iterator is invalid")) }
+
+// Value implements the storetypes.Iterator interface. It panics as the iterator is never valid.
+func (emptyIterator) Value() []byte { panic(errors.New("iterator is invalid")) }
+
+// Error implements the storetypes.Iterator interface.
+func (emptyIterator) Error() error { return nil }
+
+// Close implements the storetypes.Iterator interface.
+func (emptyIterator) Close() error { return nil }
 
 // SplitPrefix splits the key into the prefix and the key itself, if the key is prefixed with either "subject/" or "substitute/".
 // If the key is not prefixed with either "subject/" or "substitute/", the prefix is nil.
